@@ -91,6 +91,8 @@ Proof.
       * split; [apply cs_ok_fail_hard|]. simpl. exact Hown.
     + (* MapSet *) apply andb_true_iff in Hcs. destruct Hcs as [Hh Hcs].
       simpl in Hj. rewrite (nth_error_upd_same _ _ _ _ Ei) in Hj. inversion Hj; subst; simpl. split; assumption.
+    + (* MapSetReg *) apply andb_true_iff in Hcs. destruct Hcs as [Hh Hcs].
+      simpl in Hj. rewrite (nth_error_upd_same _ _ _ _ Ei) in Hj. inversion Hj; subst; simpl. split; assumption.
     + (* MapDel *) apply andb_true_iff in Hcs. destruct Hcs as [Hh Hcs].
       simpl in Hj. rewrite (nth_error_upd_same _ _ _ _ Ei) in Hj. inversion Hj; subst; simpl. split; assumption.
     + (* Respond *) simpl in Hj. rewrite (nth_error_upd_same _ _ _ _ Ei) in Hj. inversion Hj; subst.
@@ -214,6 +216,10 @@ Proof.
   - apply Keep; reflexivity.
   - destruct (c (mreg t)); apply Keep; reflexivity.
   - (* MapSet *) split; simpl; [exact HS|]. intros j tj u0 p Hj Hreg.
+    destruct (Nat.eq_dec i j) as [<-|Ne].
+    + rewrite (nth_error_upd_same _ _ _ _ Ei) in Hj. inversion Hj; subst. simpl in Hreg. eapply HT; eauto.
+    + rewrite nth_error_upd_other in Hj by exact Ne. eapply HT; eauto.
+  - (* MapSetReg *) split; simpl; [exact HS|]. intros j tj u0 p Hj Hreg.
     destruct (Nat.eq_dec i j) as [<-|Ne].
     + rewrite (nth_error_upd_same _ _ _ _ Ei) in Hj. inversion Hj; subst. simpl in Hreg. eapply HT; eauto.
     + rewrite nth_error_upd_other in Hj by exact Ne. eapply HT; eauto.
